@@ -5,7 +5,6 @@ from typing import Any, ClassVar, overload
 from attr import define
 
 from ... import schema as oai
-from ... import utils
 from ...utils import PythonIdentifier
 from ..errors import PropertyError
 from .protocol import PropertyProtocol, Value
@@ -65,4 +64,4 @@ class StringProperty(PropertyProtocol):
             return value
         if not isinstance(value, str):
             value = str(value)
-        return Value(python_code=repr(utils.remove_string_escapes(value)), raw_value=value)
+        return Value(python_code=repr(value), raw_value=value)
